@@ -2,6 +2,10 @@
 
 Correspondence: real `DataProviderLinked(scheme, group)` tables and `DataProviderLinked.align_index`
 against the Lean model (exact regime: dyadic axes, data and weights, equality).
+Three-way correspondence: the same alignment cases are also sent to the alignment ops of the C02 driver
+(`align`, `axes`, `aligntables`, and the stacked problems of `inputs`) — the model used by C02/C03/C08/C13/C14 —
+and C09 model, C02 model and real code must all agree (the equality of the two models is also a theorem,
+Lemmas/C09C02.lean).  `EstimationProviderLinked.get_result` is tied by prescribing the stacked residuals.
 Oracle: the clauses of the property statement evaluated directly on the real tables with exact
 fractions (independent of the model), and end-to-end through a one-evaluation `optimize`.
 """
@@ -21,6 +25,11 @@ REQUIRED_THEOREMS = [
     "aligned_rows_nodup", "error_iff_some_dataset_merges", "aligned_axis_strictly_increasing",
     "assignment_total_unique", "shares_clp_iff_same_aligned_point", "every_column_once",
     "reported_under_original_coordinate", "weights_default_to_ones",
+    "aligned_rows_same_length", "member_points_in_axis_order", "reported_block_is_own_block",
+    "c02_alignment_model_eq_c09", "c02_alignIndex_spec", "c02_assignment_is_self_or_nearest_aligned",
+    "c02_injective_per_dataset_or_error", "c02_error_iff_some_dataset_merges",
+    "c02_aligned_axis_strictly_increasing", "c02_assignment_total_unique",
+    "c02_shares_clp_iff_same_aligned_point", "c02_every_column_once",
 ]
 TRUSTED = [
     "hand-written model lean/GlotaranModel/C09.lean of glotaran/optimization/data_provider.py "
@@ -30,14 +39,21 @@ TRUSTED = [
     "every member contributes exactly at its own coordinate values (modelled as alignedAxis/members; observed "
     "on every correspondence case)",
     "numpy: np.unique sorts and removes duplicates, argmin returns the first minimum",
+    "hand-written model of the residual part of EstimationProviderLinked.get_result (resultResidual/cutBlock in "
+    "lean/GlotaranModel/C09.lean), tied by differential execution with prescribed stacked residuals",
+    "the alignment part of lean/GlotaranModel/C02.lean (alignIndex, alignAxes, alignedAxisOf, memberIdx, linkedProblems) is "
+    "proved equal to the C09 model (c02_alignment_model_eq_c09) and additionally executed on every case",
 ]
 ASSUMPTIONS = [
-    "every dataset's own global axis is strictly increasing (no duplicate coordinates); align_index itself is "
-    "also exercised on unsorted targets and targets with duplicates; with unsorted dataset axes xarray's join is not "
-    "always sorted (identical unsorted axes are joined as they are) and results are re-labelled positionally, so the "
-    "statement is claimed for increasing axes only",
+    "no dataset's own global axis has a repeated coordinate (xarray refuses to join such an index); the axes need not be "
+    "increasing: decreasing and shuffled own axes are part of the explored space since fix D27 (align_index and "
+    "create_aligned_global_axes are additionally exercised on unsorted targets and on axes with repeated values)",
+    "xarray's outer join returns the sorted union of the members' coordinates unless all members have the identical index, "
+    "which it keeps as it is: for datasets that all have the same non-increasing axis the aligned axis is that axis and is "
+    "not increasing (everything stays positionally consistent); this case is excluded from the statement and counted as "
+    "unsorted:skipped-identical-non-increasing-axes",
     "dataset labels are such that concatenated group labels are unambiguous (d1, d2, …); substring/concatenation "
-    "ambiguity of labels is C03's subject",
+    "ambiguity of labels is C03's subject (hypothesis GroupLabelsUnambiguous of reported_under_original_coordinate)",
     "data and weights are finite (dropna is used by the code to remove the outer-join fill)",
 ]
 RULE = (
@@ -52,7 +68,14 @@ RULE = (
     "non-trivial when at least one point is linked to a point of another dataset or the alignment is refused; "
     "distinct = distinct (tolerance, method, axes in order, sizes, weight flags). quick: seeded sample of the bounded "
     "space + random larger cases + ~100 one-evaluation optimize runs; thorough: the bounded space exhaustively "
-    "(see exhaustive_space) + larger samples"
+    "(see exhaustive_space) + larger samples. Three-way: every provider case is also run through the C02 driver "
+    "(aligntables + the stacked problems of a linked group with a ones-megacomplex) and every align_index case through "
+    "its `align` op; C09 model, C02 model and real code must agree on status, aligned axis, member datasets, member "
+    "indices, stacked data and stacked weight. A separate stream sends lists of 1-4 raw axes (also unsorted and with "
+    "repeated coordinates, where the accumulated axis of the two models used to differ) to the `axes` op of both drivers and "
+    "to the real create_aligned_global_axes. Result stream: for every k-th accepted provider case the stacked residual "
+    "of aligned point i is prescribed (1000 i + position), the real EstimationProviderLinked.get_result is compared with the "
+    "model's resultResidual and with the cut computed from the provider's API tables"
 )
 
 METHODS = ["nearest", "backward", "forward"]
@@ -75,6 +98,8 @@ def mk_case(tol, method, datasets):
 def case_sig(case):
     if case["kind"] == "align":
         return ("align", case["x"], tuple(case["target"]), case["tol"], case["method"])
+    if case["kind"] == "axes":
+        return ("axes", case["tol"], case["method"], tuple(map(tuple, case["axes"])))
     return ("provider", case["tol"], case["method"],
             tuple((d["label"], d["msize"], tuple(d["axis"]), d["weighted"]) for d in case["datasets"]))
 
@@ -511,6 +536,246 @@ def oracle_end_to_end(ck, case):
 
 
 # ------------------------------------------------------------------------------------------
+# the C02 driver on the same cases (the alignment model shared by C02/C03/C08/C13/C14)
+# ------------------------------------------------------------------------------------------
+def c02_lines(case):
+    """a linked group with one ones-megacomplex per dataset: `aligntables` + the stacked problems (`inputs`)"""
+    dss = materialise(case)
+    tol, method = rat(F(case["tol"])), case["method"]
+    lines = [f"aligntables {tol} {method} {lst(rats(d['axis']) for d in dss)}", "reset", f"group T vp {tol} {method}"]
+    for d in dss:
+        m, n = d["msize"], len(d["axis"])
+        data = lst(rats([d["data"][j][i] for j in range(n)]) for i in range(m))          # model x global
+        w = "none" if d["weight"] is None else lst(rats([d["weight"][j][i] for j in range(n)]) for i in range(m))
+        mc = lst([lst([lst([enc("c")]), lst(["d2", lst(rats([F(1)]) for _ in range(m))]), "none"])])
+        lines.append(f"dataset {enc(d['label'])} {rats(d['axis'])} {data} {w} none {mc} []")
+    lines.append("inputs")
+    return lines
+
+
+def parse_c02(answers):
+    """answers of c02_lines -> ('ok', axis, member dataset numbers, member indices, stacked data, stacked weight or ones)"""
+    tables, inputs = answers[0], answers[-1]
+    for a in answers[1:-1]:
+        if a != "ok":
+            raise core.HarnessError(f"C02 driver answered {a!r} to a description line")
+    if tables.startswith("err "):
+        if inputs != "inputs [align-error]":
+            raise core.HarnessError(f"C02 driver: aligntables {tables!r} but inputs {inputs[:80]!r}")
+        return ("err", tables[4:])
+    if not tables.startswith("ok ") or not inputs.startswith("inputs "):
+        raise core.HarnessError(f"C02 driver answered {tables[:80]!r} / {inputs[:80]!r}")
+    parts = {}
+    for tok in tables[3:].split(" "):
+        k, v = tok.split("=", 1)
+        parts[k] = core.parse_tree(v)[0]
+    groups = core.parse_tree(inputs[len("inputs "):])[0]
+    if len(groups) != 1 or isinstance(groups[0], str):
+        raise core.HarnessError(f"C02 driver: unexpected inputs {inputs[:120]!r}")
+    problems = groups[0]
+    axis = [F(x) for x in parts["axis"]]
+    if [F(pr[0]) for pr in problems] != axis:
+        return ("ok", axis, "axis of aligntables differs from the x of the stacked problems", None, None, None)
+    return ("ok", axis,
+            [[int(k) for k in row] for row in parts["ds"]],
+            [[int(k) for k in row] for row in parts["idx"]],
+            [[F(x) for x in pr[4]] for pr in problems],
+            [[F(r[0]) for r in pr[3]] for pr in problems])      # matrix = ones * stacked weight, one column
+
+
+def three_way_form(case, t):
+    """C09-model / real canonical tables -> the form of parse_c02"""
+    if t[0] == "err":
+        return t[:2]
+    _, axis, idx, labels, defs, data, weights = t
+    num = {d["label"]: k for k, d in enumerate(case["datasets"])}
+    defs = dict(defs)
+    dsn = [[num.get(l, -1) for l in defs.get(lab, ["?"])] for lab in labels]
+    w = [wi if wi is not None else [F(1)] * len(di) for wi, di in zip(weights, data)]
+    return ("ok", axis, dsn, idx, data, w)
+
+
+FIELDS3 = ["status", "aligned axis", "member datasets", "member indices", "stacked data", "stacked weight (or ones)"]
+
+
+def three_way_difference(real3, c09_3, c02_3):
+    for name, other in (("C09 model", c09_3), ("C02 model", c02_3)):
+        if real3[:2] != other[:2] and (real3[0] == "err" or other[0] == "err"):
+            return f"implementation {real3[:2]!r}, {name} {other[:2]!r}"
+        if real3[0] == "ok":
+            for i in range(1, 6):
+                if real3[i] != other[i]:
+                    return f"{FIELDS3[i]}: implementation {show(real3[i])}, {name} {show(other[i])}"
+    return None
+
+
+def c02_answers(cases):
+    lines, spans = [], []
+    for c in cases:
+        ls = c02_lines(c)
+        spans.append((len(lines), len(lines) + len(ls)))
+        lines += ls
+    out = core.lean_driver("C02", lines)
+    return [parse_c02(out[a:b]) for a, b in spans]
+
+
+# ------------------------------------------------------------------------------------------
+# raw axes (also unsorted / repeated coordinates) on both drivers and the real create_aligned_global_axes
+# ------------------------------------------------------------------------------------------
+def real_axes(case):
+    """the real `create_aligned_global_axes` run on a stub provider holding only the global axes"""
+    import types
+    g = _glot()
+    np = g["np"]
+    stub = types.SimpleNamespace(
+        _global_axes={f"d{i + 1}": np.array([float(F(x)) for x in ax], dtype=float) for i, ax in enumerate(case["axes"])},
+        align_index=g["DPL"].align_index)
+    scheme = types.SimpleNamespace(clp_link_tolerance=float(F(case["tol"])), clp_link_method=case["method"])
+    try:
+        out = g["DPL"].create_aligned_global_axes(stub, scheme)
+    except g["AlignDatasetError"]:
+        return "err AlignDataset"
+    return "ok " + lst(rats([fr(v) for v in out[f"d{i + 1}"]]) for i in range(len(case["axes"])))
+
+
+def axes_line(case):
+    return f"axes {rat(F(case['tol']))} {case['method']} {lst(rats([F(x) for x in ax]) for ax in case['axes'])}"
+
+
+def random_axes_case(rng):
+    n = rng.randint(1, 4)
+    axes = []
+    for d in range(n):
+        k = rng.randint(1, 4)
+        ax = [F(rng.randint(0, 16), 4) for _ in range(k)]
+        mode = rng.random()
+        if mode < 0.4:
+            ax = sorted(set(ax))
+        elif mode < 0.6 and d > 0:
+            ax = list(dict.fromkeys(ax))          # unsorted, no repetition
+        axes.append([str(x) for x in ax])
+    return {"kind": "axes", "tol": str(rng.choice(TOLS)), "method": rng.choice(METHODS), "axes": axes}
+
+
+def compare_axes(ck, cases, tag):
+    if not cases:
+        return
+    lines = [axes_line(c) for c in cases]
+    m09 = core.lean_driver(PROP, lines)
+    m02 = core.lean_driver("C02", lines)
+    bad = 0
+    for case, a09, a02 in zip(cases, m09, m02):
+        try:
+            real = real_axes(case)
+        except (AttributeError, TypeError):
+            ck.count("create_aligned_global_axes-not-callable-on-a-stub")
+            return
+        unsorted_first = [F(x) for x in case["axes"][0]] != sorted({F(x) for x in case["axes"][0]})
+        ck.case(("axes", case["tol"], case["method"], tuple(map(tuple, case["axes"]))), real.startswith("err") or len(case["axes"]) > 1)
+        ck.count(f"stream:{tag}")
+        ck.count("axes:" + ("first-axis-unsorted-or-repeated" if unsorted_first else "first-axis-increasing"))
+        ck.count("axes-outcome:" + real.split(" ")[0])
+        if not (real == a09 == a02):
+            bad += 1
+            if bad <= 3:
+                ck.disagree("axes-three-way", f"create_aligned_global_axes {case['axes']} tol={case['tol']} {case['method']}: "
+                            f"implementation {real}, C09 model {a09}, C02 model {a02}", case)
+
+
+# ------------------------------------------------------------------------------------------
+# EstimationProviderLinked.get_result with prescribed stacked residuals
+# ------------------------------------------------------------------------------------------
+def prescribed_residuals(sizes):
+    return [[F(1000 * i + k) for k in range(n)] for i, n in enumerate(sizes)]
+
+
+def real_result(case, residuals):
+    """residual columns per dataset reported by the real get_result when the stacked residuals are `residuals`;
+    also the global coordinates they are reported under"""
+    g = _glot()
+    np = g["np"]
+    from glotaran.optimization.optimization_group import OptimizationGroup
+
+    scheme, group = build_scheme(case)
+    group.link_clp = True
+    og = OptimizationGroup(scheme, group)
+    og.calculate(scheme.parameters)
+    ep = og._estimation_provider
+    ep._residuals = [np.array([float(v) for v in r], dtype=float) for r in residuals]
+    _, res = ep.get_result()
+    out, coords = [], []
+    for d in case["datasets"]:
+        da = res[d["label"]]
+        gdim = [x for x in da.dims if x != "model"][0]
+        vals = da.transpose("model", gdim).values
+        out.append([[fr(vals[i, j]) for i in range(vals.shape[0])] for j in range(vals.shape[1])])
+        coords.append([fr(v) for v in da.coords[gdim].values])
+    return out, coords
+
+
+def result_line(case, residuals):
+    return provider_line(case).replace("provider ", "result ", 1) + " " + lst(rats(r) for r in residuals)
+
+
+def oracle_result(ck, case, real):
+    """oracle on the real get_result, from the provider's API tables only: the column reported for (d, j) is the
+    segment of the stacked residual of the aligned point holding (d, j), at the offset of d among the members stacked
+    there, and it is reported under the dataset's own coordinates.  Returns (prescribed residuals, real columns | None)"""
+    residuals = prescribed_residuals([len(col) for col in real[5]])
+    ck.oracle_evals += 1
+    try:
+        got, coords = real_result(case, residuals)
+    except AttributeError:
+        ck.count("get_result-not-reachable")
+        return residuals, None
+    except Exception as e:
+        ck.violation("get_result-failed", f"get_result on an accepted alignment raised {type(e).__name__}: {e}", case)
+        return residuals, None
+    dss = materialise(case)
+    _, axis, idx, labels, defs, data, weights = real
+    defs = dict(defs)
+    want = [[None] * len(d["axis"]) for d in dss]
+    num = {d["label"]: k for k, d in enumerate(dss)}
+    for i in range(len(axis)):
+        off = 0
+        for lab, j in zip(defs[labels[i]], idx[i]):
+            dn = num[lab]
+            want[dn][j] = residuals[i][off: off + dss[dn]["msize"]]
+            off += dss[dn]["msize"]
+    for dn, d in enumerate(dss):
+        if coords[dn] != d["axis"]:
+            ck.violation("residual-coordinate-changed", f"get_result reports dataset {d['label']} on global coordinates "
+                         f"{show(coords[dn])}, its axis is {show(d['axis'])}", case)
+        elif got[dn] != want[dn]:
+            ck.violation("residual-block-under-wrong-coordinate",
+                         f"get_result, dataset {d['label']}: columns {show(got[dn])}, but the blocks of its points in the "
+                         f"stacked residuals of their aligned points are {show(want[dn])}", case)
+    return residuals, got
+
+
+def compare_results(ck, items, tag):
+    """items: (case, real tables) of accepted provider cases"""
+    if not items:
+        return
+    todo = []
+    for case, real in items:
+        ck.count(f"stream:{tag}")
+        residuals, got = oracle_result(ck, case, real)
+        if got is not None:
+            todo.append((case, residuals, got))
+    answers = core.lean_driver(PROP, [result_line(c, r) for c, r, _ in todo])
+    for (case, residuals, got), ans in zip(todo, answers):
+        if len([d for d in ck.disagreements if d["key"] == "get_result-model-vs-impl"]) >= 3:
+            break
+        if not ans.startswith("ok "):
+            ck.disagree("get_result-model-vs-impl", f"implementation returned residuals, model answered {ans}", case)
+            continue
+        mod = [[[F(x) for x in col] for col in ds] for ds in core.parse_tree(ans[3:])[0]]
+        if mod != got:
+            ck.disagree("get_result-model-vs-impl", f"get_result residual columns: implementation {show(got)}, model {show(mod)}", case)
+
+
+# ------------------------------------------------------------------------------------------
 # comparison
 # ------------------------------------------------------------------------------------------
 def is_nontrivial(case, real):
@@ -519,14 +784,23 @@ def is_nontrivial(case, real):
     return any(len(row) > 1 for row in real[2])
 
 
-def compare_providers(ck, cases, tag, e2e_every=0):
+def compare_providers(ck, cases, tag, e2e_every=0, result_every=5):
     if not cases:
         return
     lines = [provider_line(c) for c in cases]
     model = core.lean_driver(PROP, lines)
+    model02 = c02_answers(cases)
+    for_results = []
     for n, (case, ans) in enumerate(zip(cases, model)):
         real = real_tables(case)
         mod = parse_model_tables(ans)
+        if real[0] == "ok" or real[1] == "AlignDataset":
+            d3 = three_way_difference(three_way_form(case, real), three_way_form(case, mod), model02[n])
+            ck.count("three-way:compared")
+            if d3 and len([d for d in ck.disagreements if d["key"] == "three-way"]) < 3:
+                ck.disagree("three-way", d3, case)
+        if real[0] == "ok" and result_every and n % result_every == 0:
+            for_results.append((case, real))
         ck.case(case_sig(case), is_nontrivial(case, real))
         ck.count(f"stream:{tag}")
         ck.count(f"datasets:{len(case['datasets'])}")
@@ -543,6 +817,7 @@ def compare_providers(ck, cases, tag, e2e_every=0):
             ck.disagree("model-vs-impl", diff, small)
         if e2e_every and n % e2e_every == 0 and real[0] == "ok":
             oracle_end_to_end(ck, case)
+    compare_results(ck, for_results, "get_result")
 
 
 def provider_differs(case):
@@ -579,8 +854,9 @@ def compare_align(ck, cases, tag):
     if not cases:
         return
     model = core.lean_driver(PROP, [align_line(c) for c in cases])
+    model02 = core.lean_driver("C02", [align_line(c) for c in cases])
     bad = 0
-    for case, ans in zip(cases, model):
+    for case, ans, ans02 in zip(cases, model, model02):
         try:
             r = real_align(case)
         except AttributeError:
@@ -590,7 +866,8 @@ def compare_align(ck, cases, tag):
         ck.count(f"stream:{tag}")
         ck.count("align:" + ("linked" if r != F(case["x"]) else "kept"))
         check_align_value(ck, case, r)
-        if ans != rat(r):
+        if ans != rat(r) or ans02 != rat(r):
+            ans = f"{ans} (C09) / {ans02} (C02)"
             bad += 1
             if bad <= 3:
                 ck.disagree("align_index-model-vs-impl",
@@ -623,6 +900,40 @@ def random_case(rng, ndatasets, grid_n, max_points):
         ax = random_axis(rng, grid_n, max_points, offsets=(d > 0 or rng.random() < 0.5))
         dss.append((ax, rng.randint(1, 3), rng.random() < 0.4))
     return mk_case(rng.choice(TOLS), rng.choice(METHODS), dss)
+
+
+def unsorted_case(rng, ndatasets, grid_n, max_points):
+    """a random case in which some datasets' own global axes are decreasing or shuffled"""
+    case = random_case(rng, ndatasets, grid_n, max_points)
+    changed = False
+    for d in case["datasets"]:
+        mode = rng.random()
+        if mode < 0.45 and len(d["axis"]) > 1:
+            d["axis"] = d["axis"][::-1]
+            changed = True
+        elif mode < 0.7 and len(d["axis"]) > 2:
+            ax = list(d["axis"])
+            rng.shuffle(ax)
+            changed = changed or ax != d["axis"]
+            d["axis"] = ax
+    if not changed:
+        big = max(case["datasets"], key=lambda d: len(d["axis"]))
+        big["axis"] = big["axis"][::-1]
+    return case
+
+
+def join_is_sorted_union(case):
+    """xarray's outer join returns the sorted union unless all members have the identical index (then it is kept as
+    is): false when the aligned axes (computed from the statement, not from the code) can all be the same
+    non-increasing list"""
+    for b in reference_branches(case):
+        if b[0] != "ok":
+            continue
+        rows = b[1]
+        increasing = all(a < c for a, c in zip(rows[0], rows[0][1:]))
+        if all(r == rows[0] for r in rows) and not increasing:
+            return False
+    return True
 
 
 def all_orders(case):
@@ -697,7 +1008,8 @@ REGRESSION = [
 
 def run_cases(ck, cases, tag, e2e_every=0):
     compare_align(ck, [c for c in cases if c["kind"] == "align"], tag)
-    compare_providers(ck, [c for c in cases if c["kind"] == "provider"], tag, e2e_every)
+    compare_axes(ck, [c for c in cases if c["kind"] == "axes"], tag)
+    compare_providers(ck, [c for c in cases if c["kind"] == "provider"], tag, e2e_every, result_every=1)
 
 
 def run(ck):
@@ -711,6 +1023,8 @@ def run(ck):
         space = space[:6000]
     compare_align(ck, space, "align-bounded")
     compare_align(ck, [random_align(rng) for _ in range(ck.n(4000, 40000))], "align-random")
+    # create_aligned_global_axes on raw axes, also unsorted / repeated coordinates: both models and the real function
+    compare_axes(ck, [random_axes_case(rng) for _ in range(ck.n(3000, 30000))], "axes-three-way")
     # providers: bounded space
     if ck.quick:
         bounded = list(bounded_space(full=False))
@@ -722,10 +1036,10 @@ def run(ck):
         for c in bounded_space(full=False):
             batch.append(c)
             if len(batch) >= 2000:
-                compare_providers(ck, batch, "bounded-exhaustive", e2e_every=97)
+                compare_providers(ck, batch, "bounded-exhaustive", e2e_every=97, result_every=15)
                 total += len(batch)
                 batch = []
-        compare_providers(ck, batch, "bounded-exhaustive", e2e_every=97)
+        compare_providers(ck, batch, "bounded-exhaustive", e2e_every=97, result_every=15)
         total += len(batch)
         ck.exhaustive = True
         ck.extra["exhaustive_space"] = (
@@ -742,7 +1056,16 @@ def run(ck):
         orders = all_orders(base)
         rng.shuffle(orders)
         larger += orders[: (6 if nd <= 3 else 4)]
-    compare_providers(ck, larger, "random-larger", e2e_every=ck.n(6, 12))
+    compare_providers(ck, larger, "random-larger", e2e_every=ck.n(6, 12), result_every=ck.n(5, 10))
+    # non-increasing dataset axes (decreasing / shuffled): alignment tables, get_result and e2e (fix D27)
+    uns = []
+    for _ in range(ck.n(260, 2000)):
+        c = unsorted_case(rng, rng.choice([2, 2, 3, 4]), 6, 5)
+        if join_is_sorted_union(c):
+            uns.append(c)
+        else:
+            ck.count("unsorted:skipped-identical-non-increasing-axes")
+    compare_providers(ck, uns, "non-increasing-axes", e2e_every=ck.n(4, 12), result_every=1)
     for c in (larger[:2] + [REGRESSION[0]]):
         ck.sample(c)
 
@@ -757,9 +1080,16 @@ def search(ck):
         if ck.violations:
             return
     for _ in range(ck.n(1500, 15000)):
-        c = random_case(rng, rng.choice([2, 3, 4]), 6, 5)
+        if rng.random() < 0.3:
+            c = unsorted_case(rng, rng.choice([2, 3, 4]), 6, 5)
+            if not join_is_sorted_union(c):
+                continue
+        else:
+            c = random_case(rng, rng.choice([2, 3, 4]), 6, 5)
         real = real_tables(c)
         oracle_tables(ck, c, real)
+        if not ck.violations and real[0] == "ok" and rng.random() < 0.15:
+            oracle_result(ck, c, real)
         if not ck.violations and real[0] == "ok" and rng.random() < 0.1:
             oracle_end_to_end(ck, c)
         if ck.violations:
@@ -773,7 +1103,9 @@ def replay(ck, case):
     else:
         cases = [case.get("case", case)]
     for c in cases:
-        if c.get("kind") == "align":
+        if c.get("kind") == "axes":
+            print("create_aligned_global_axes on the real code:", real_axes(c))
+        elif c.get("kind") == "align":
             r = real_align(c)
             print(f"align_index({c['x']}, {c['target']}, tolerance={c['tol']}, {c['method']!r}) = {r} on the real code; "
                   f"allowed by the statement: {sorted(map(str, allowed_images(c['method'], [F(t) for t in c['target']], F(c['x']), F(c['tol']))))}")
